@@ -254,7 +254,7 @@ func c13Run(job, tier string, deadline time.Time) *engine.Result {
 	parts := strings.Split(job, ":")
 	v6 := parts[1] == "6"
 	w := c13NewWorld()
-	defer w.close()
+	defer func() { w.close() }()
 	n := 0
 	do := func(reqs []c13Req, burst bool) {
 		n++
